@@ -173,7 +173,7 @@ def t1_agreement(ctx):
     ssc = repo.lookup_method(cls, 'save_spike_clusters')
     lsc = repo.lookup_method(cls, '_load_spike_clusters')
     fs = [x for x in ssc.calls() if q.method_name(x) == '_find_path']
-    fl = [x for x in lsc.calls() if q.method_name(x) == '_find_path']
+    fl = [x for f_ in repo.transparent_closure(lsc) for x in f_.calls() if q.method_name(x) == '_find_path']
     ok = bool(fs) and bool(fl)
     if ok:
         ns = [const_value(a) for a in fs[0].args]
